@@ -258,6 +258,11 @@ def register(E):
             if ty in ('usize', 'u8', 'u32', 'u64', 'i32', 'i64', 'isize'): return 0
             if ty == 'bool': return False
             if ty.startswith(('HashSet<', 'std::collections::HashSet<')): return Vec([], 'HashSet')
+            if ty.startswith(('BTreeMap<', 'std::collections::BTreeMap<')):
+                from .models2 import BTreeMapM
+                return BTreeMapM()
+            if ty.startswith(('HashMap<', 'std::collections::HashMap<')): return HashMapM()
+            if ty.startswith(('BTreeSet<', 'std::collections::BTreeSet<')): return Vec([], 'BTreeSet')
             raise EngineError('no Default model for ' + ty)
         return Vec([], 'SmallVec' if 'SmallVec' in c else 'Vec')
     @R(r'^(SmallVec|Vec)::<.*>::push$')
